@@ -1,7 +1,7 @@
 (* C04 — correspondence / property evaluation on runs observed on the
    implementation.  Executable only. *)
 From Coq Require Import List ZArith Bool.
-From GZ Require Export Lib.CheckLib C04.Model.
+From GZ Require Export Lib.CheckLib C04.Model C04.Recover.
 Import ListNotations.
 Open Scope Z_scope.
 
@@ -54,6 +54,7 @@ Inductive sres := SoWait | SoRet | SoPanic (p : option pval).
 
 Record rest_case := mkRest
   { (* input *)
+    rc_rec : bool;               (* a RecoverHandler sits between the timeout middleware and the work *)
     rc_fl : bool;                (* the real writer is an http.Flusher *)
     rc_h0 : hdrs; rc_script : list act; rc_dur : Z; rc_rq : reqkind;
     rc_parent : option Z;        (* caller's deadline (ns from the start), if any *)
@@ -117,14 +118,14 @@ Definition sres_eqb (a b : sres) : bool :=
    under one of them. *)
 Definition rest_agrees_sched (c : rest_case) (sched : list ev) : bool :=
   if rc_wrapped c then
-    match run_strict (init (rc_fl c) (rc_h0 c) (rc_script c)) sched with
+    match rrun_strict (rc_rec c) (init (rc_fl c) (rc_h0 c) (rc_script c)) sched with
     | Some (s, obs) =>
       list_eqb ares_eqb obs (rc_hobs c) && rw_eqb (rw s) (obs_rw c) &&
       sres_eqb (sout_of_sst (sst s)) (rc_sout c)
     | None => false
     end
   else
-    match xrun_strict (xinit (rc_fl c) (rc_h0 c) (rc_script c)) sched with
+    match rxrun_strict (rc_rec c) (xinit (rc_fl c) (rc_h0 c) (rc_script c)) sched with
     | Some (s, obs) =>
       list_eqb ares_eqb obs (rc_hobs c) && rw_eqb (xrw s) (obs_rw c) &&
       sres_eqb (sout_of_hst (xhst s)) (rc_sout c)
@@ -162,6 +163,15 @@ Definition candidates (c : rest_case) : list (list act) :=
   rc_script c ::
   match rc_dmode c with Some _ => check_prefixes [] (rc_script c) | None => [] end.
 
+(* the work as the timeout middleware sees it: with a RecoverHandler in between, the
+   script up to its first panic, then WriteHeader(500) (Recover.rec_cut) *)
+Definition work_of (c : rest_case) (acts : list act) : list act :=
+  if rc_rec c then rec_cut (rc_fl c) false acts else acts.
+
+(* ... and for a request that is not wrapped (the recovery answers on the real writer) *)
+Definition xwork_of (c : rest_case) (acts : list act) : list act :=
+  if rc_rec c then xrec_cut (rw_fresh (rc_fl c) (rc_h0 c)) acts else acts.
+
 Definition obs_view (c : rest_case) : view := rw_view (obs_rw c).
 
 (* "the work's complete result": the independent description [spec_view] of one of
@@ -171,7 +181,7 @@ Definition is_complete (c : rest_case) : bool :=
              match spec_panic (rc_fl c) false acts with
              | None => view_eqb (obs_view c) (spec_view (rc_fl c) (rc_h0 c) acts)
              | Some _ => false
-             end) (candidates c).
+             end) (map (work_of c) (candidates c)).
 
 Fixpoint prefixes {A} (l : list A) : list (list A) :=
   match l with
@@ -188,7 +198,7 @@ Definition is_timeout (c : rest_case) : bool :=
                  | None => negb (info_first (rc_fl c) pre) &&
                            view_eqb (obs_view c) (timeout_view (rc_fl c) (rc_h0 c) k pre)
                  | Some _ => false
-                 end) (prefixes (rc_script c))
+                 end) (prefixes (work_of c (rc_script c)))
     else view_eqb (obs_view c) ([], Some (timeout_code k, rc_h0 c), reason)
   | None => false
   end.
@@ -202,6 +212,8 @@ Definition all_or_nothing_ok (c : rest_case) : bool :=
   | SoWait => false                          (* ServeHTTP must return once the handler has *)
   | SoRet => is_complete c || is_timeout c
   | SoPanic (Some p) =>
+    (* behind a RecoverHandler no panic of the work reaches the serving goroutine *)
+    negb (rc_rec c) &&
     untouched c && opt_eqb pval_eqb (spec_panic (rc_fl c) false (rc_script c)) (Some p)
   | SoPanic None => false
   end.
@@ -237,7 +249,8 @@ Definition deadline_ok (dur : Z) (parent seen : option Z) (t1 : Z) : bool :=
 Definition exempt_not_cut (c : rest_case) : bool :=
   match rc_sout c with
   | SoRet =>
-    existsb (fun acts => view_eqb (obs_view c) (rw_view (direct (rc_fl c) (rc_h0 c) acts))) (candidates c)
+    existsb (fun acts => view_eqb (obs_view c) (rw_view (direct (rc_fl c) (rc_h0 c) acts)))
+            (map (xwork_of c) (candidates c))
   | _ => true
   end.
 
@@ -381,9 +394,9 @@ Fixpoint forall_idx {A} (f : nat -> A -> bool) (i : nat) (l : list A) : bool :=
 (* request i seen as a single-request case: its own script, its own events, its own
    observations — everything the other requests did is simply absent.  [dur] and
    [script] are what the configuration gives this request. *)
-Definition seq_as_rest (dur : Z) (script : list act) (sched : list (nat * ev)) (hobs : list (nat * ares))
+Definition seq_as_rest (rec : bool) (dur : Z) (script : list act) (sched : list (nat * ev)) (hobs : list (nat * ares))
            (i : nat) (r : seq_req) : rest_case :=
-  mkRest (sr_fl r) (sr_h0 r) script dur (classify (sr_hdrs r)) (sr_parent r) (sr_dmode r)
+  mkRest rec (sr_fl r) (sr_h0 r) script dur (classify (sr_hdrs r)) (sr_parent r) (sr_dmode r)
          (sr_wrapped r) (proj i sched) []
          (map snd (filter (fun o => Nat.eqb (fst o) i) hobs))
          (sr_sout r) (sr_status r) (sr_snap r) (sr_live r) (sr_body r) (sr_infos r) (sr_flushes r) (sr_code r)
@@ -393,16 +406,16 @@ Definition comp_sout (c : comp) : sres :=
   match c with CW s => sout_of_sst (sst s) | CX s => sout_of_hst (xhst s) end.
 
 (* [conf r] = (timeout handed to TimeoutHandler for r's route, the route's handler script) *)
-Definition gseq_agrees (conf : seq_req -> Z * list act) (reqs : list seq_req)
+Definition gseq_agrees (rec : bool) (conf : seq_req -> Z * list act) (reqs : list seq_req)
            (sched : list (nat * ev)) (hobs : list (nat * ares)) : bool :=
   let wrap r := wrapped (fst (conf r)) (classify (sr_hdrs r)) in
   let comps := map (fun r => cinit (wrap r) (mkReq (sr_fl r) (sr_h0 r) (snd (conf r)))) reqs in
-  match cmrun_strict comps sched with
+  match rcmrun_strict rec comps sched with
   | Some (cs, obs) =>
     list_eqb iares_eqb obs hobs &&
     forall_idx (fun i cr =>
                   let c := fst cr in let r := snd cr in
-                  let rc := seq_as_rest (fst (conf r)) (snd (conf r)) sched hobs i r in
+                  let rc := seq_as_rest rec (fst (conf r)) (snd (conf r)) sched hobs i r in
                   rw_eqb (comp_rw c) (obs_rw rc) && sres_eqb (comp_sout c) (sr_sout r) &&
                   Bool.eqb (wrap r) (sr_wrapped r) &&
                   dl_agrees (rest_deadline (rc_dur rc) (rc_rq rc) (rc_parent rc) (rc_t0 rc))
@@ -417,18 +430,19 @@ Definition gseq_agrees (conf : seq_req -> Z * list act) (reqs : list seq_req)
    an ambiguous request (see sr_amb) is judged as what the implementation took it for *)
 Definition judged_as (r : seq_req) (c : rest_case) : rest_case :=
   if sr_amb r then
-    mkRest (rc_fl c) (rc_h0 c) (rc_script c) (rc_dur c) (if sr_wrapped r then RqPlain else RqWebsocket)
+    mkRest (rc_rec c) (rc_fl c) (rc_h0 c) (rc_script c) (rc_dur c) (if sr_wrapped r then RqPlain else RqWebsocket)
            (rc_parent c) (rc_dmode c) (rc_wrapped c) (rc_sched c) (rc_alts c) (rc_hobs c) (rc_sout c)
            (rc_status c) (rc_snap c) (rc_live c) (rc_body c) (rc_infos c) (rc_flushes c) (rc_code c) (rc_extra c)
            (rc_late c) (rc_foreign c) (rc_dl c) (rc_t0 c) (rc_t1 c) (rc_retatd c)
   else c.
 
-Definition gseq_prop_ok (conf : seq_req -> Z * list act) (reqs : list seq_req)
+Definition gseq_prop_ok (rec : bool) (conf : seq_req -> Z * list act) (reqs : list seq_req)
            (sched : list (nat * ev)) (hobs : list (nat * ares)) : bool :=
-  forall_idx (fun i r => rest_prop_ok (judged_as r (seq_as_rest (fst (conf r)) (snd (conf r)) sched hobs i r))) O reqs.
+  forall_idx (fun i r => rest_prop_ok (judged_as r (seq_as_rest rec (fst (conf r)) (snd (conf r)) sched hobs i r))) O reqs.
 
 Record seq_case := mkSeq
-  { sq_dur : Z;
+  { sq_rec : bool;                     (* Timeout -> Recover -> work *)
+    sq_dur : Z;
     sq_reqs : list seq_req;
     sq_sched : list (nat * ev);        (* the executor forces it completely *)
     sq_hobs : list (nat * ares);       (* what each handler action reported, in schedule order *)
@@ -437,16 +451,17 @@ Record seq_case := mkSeq
 Definition seq_conf (c : seq_case) (r : seq_req) : Z * list act := (sq_dur c, sr_script r).
 
 Definition seq_agrees (c : seq_case) : bool :=
-  gseq_agrees (seq_conf c) (sq_reqs c) (sq_sched c) (sq_hobs c).
+  gseq_agrees (sq_rec c) (seq_conf c) (sq_reqs c) (sq_sched c) (sq_hobs c).
 
 Definition seq_prop_ok (c : seq_case) : bool :=
-  gseq_prop_ok (seq_conf c) (sq_reqs c) (sq_sched c) (sq_hobs c) && negb (sq_retatd c =? 0).
+  gseq_prop_ok (sq_rec c) (seq_conf c) (sq_reqs c) (sq_sched c) (sq_hobs c) && negb (sq_retatd c =? 0).
 
 (* ------------------------------------------------------------------ *)
 (* a real rest.Server: route groups with options, several requests to its routes *)
 
 Record srv_case := mkSrv
-  { sv_conf_ms : Z; sv_mw : bool;
+  { sv_rec : bool;                     (* conf.Middlewares.Recover *)
+    sv_conf_ms : Z; sv_mw : bool;
     sv_groups : list (list ropt);
     sv_reqs : list seq_req;
     sv_sched : list (nat * ev);
@@ -465,13 +480,13 @@ Definition srv_agrees (c : srv_case) : bool :=
   let t := eng_timeout (sv_conf_ms c) (map route_conf (sv_groups c)) in
   (sv_eng c =? t) && (sv_read c =? srv_read_timeout t) && (sv_write c =? srv_write_timeout t) &&
   forallb (fun r => Nat.ltb (sr_group r) (length (sv_groups c))) (sv_reqs c) &&
-  gseq_agrees (srv_conf c) (sv_reqs c) (sv_sched c) (sv_hobs c).
+  gseq_agrees (sv_rec c) (srv_conf c) (sv_reqs c) (sv_sched c) (sv_hobs c).
 
 (* per route: deadline = min(caller's, now + chosen timeout), all-or-nothing, nothing
    after the timeout; header-exempt requests are not wrapped, keep the caller's
    deadline and are not cut; no timeout configured: nothing demanded *)
 Definition srv_prop_ok (c : srv_case) : bool :=
-  gseq_prop_ok (srv_conf c) (sv_reqs c) (sv_sched c) (sv_hobs c) && negb (sv_retatd c =? 0).
+  gseq_prop_ok (sv_rec c) (srv_conf c) (sv_reqs c) (sv_sched c) (sv_hobs c) && negb (sv_retatd c =? 0).
 
 (* ------------------------------------------------------------------ *)
 (* sequences of calls through ONE interceptor instance (fam 0) / fx (fam 1) *)
@@ -548,12 +563,12 @@ Definition model_obs (c : case) :=
   match c with
   | CRest c =>
     if rc_wrapped c then
-      match run_strict (init (rc_fl c) (rc_h0 c) (rc_script c)) (rc_sched c) with
+      match rrun_strict (rc_rec c) (init (rc_fl c) (rc_h0 c) (rc_script c)) (rc_sched c) with
       | Some (s, obs) => Some (rw s, obs)
       | None => None
       end
     else
-      match xrun_strict (xinit (rc_fl c) (rc_h0 c) (rc_script c)) (rc_sched c) with
+      match rxrun_strict (rc_rec c) (xinit (rc_fl c) (rc_h0 c) (rc_script c)) (rc_sched c) with
       | Some (s, obs) => Some (xrw s, obs)
       | None => None
       end
